@@ -14,7 +14,7 @@ LEVEL = "model_checking"
 ASSUME = ["data races are observed with the Go race detector (go build -race) on free-running scenarios with microsecond ticker intervals; "
           "a race that needs a schedule the scenarios never produce is not seen",
           "race reports are reduced to pairs of innermost library frames", "TLC/SANY, Go toolchain"]
-SCENARIOS = ["callback-queries-progress", "smart-stop-inflight", "ticker-vs-fg", "ticker-with-work", "queries-vs-stop", "double-stop", "start-stop", "smart", "readers-same-file",
+SCENARIOS = ["callback-queries-progress", "smart-stop-inflight", "smart-parent-cancel", "ticker-vs-fg", "ticker-with-work", "queries-vs-stop", "double-stop", "start-stop", "smart", "readers-same-file",
              "handles-distinct-files", "filewriter-incremental", "bufferpool"]
 
 
@@ -43,6 +43,9 @@ def run(ctx):
     early = ctx.tlc("SmartStop.tla", "C18_smartstop_early.cfg", workers=2, timeout=120)
     if early.ok or not early.violated:
         raise H.Infra("SmartStop with CODE_StopReadsModeEarly no longer violates QuietAfterStop")
+    clears = ctx.tlc("SmartStop.tla", "C18_smartstop_clears.cfg", workers=2, timeout=120)
+    if clears.ok or not clears.violated:
+        raise H.Infra("SmartStop with CODE_MonitorClearsStarted no longer violates QuietAfterStop")
     pan = ctx.tlc("Rebalancer.tla", "C18_code_panic.cfg", workers=4, timeout=300)
     if pan.ok or not pan.violated:
         raise H.Infra("Rebalancer with CODE_Unlocked no longer reaches the double-close panic")
